@@ -197,6 +197,12 @@ func (c *pipeCase) Classes() []string {
 			m["imports"] = true
 		}
 	}
+	if s.Work {
+		m["workspace"] = true
+	}
+	if s.Peek {
+		m["peek"] = true
+	}
 	if len(s.Globals) > 0 {
 		m["global-tags"] = true
 	}
